@@ -69,6 +69,6 @@ def conc : Handler := fun _ impl =>
 
 def handlersC10 : List (String × Handler) := [("stream", stream)]
 def handlersC11 : List (String × Handler) := [("out", out)]
-def handlersC14 : List (String × Handler) := [("xids", xids), ("conc", conc)]
+def handlersC14 : List (String × Handler) := [("xids", xids), ("conc", conc), ("conclookup", conc)]
 
 end OFV.Driver.Stream
